@@ -1,11 +1,13 @@
-(* Proofs/ApprovalCharts: the viewer's Charts section.  A chart is shown as
-   present in the configuration iff some configured COUNTER of the program
-   belongs to it; no chart drawing an approved plain counter is ever called
+(* Proofs/ApprovalCharts: the viewer's Charts section (charts() after fix
+   c8e437d: Active = HasCounter || HasCounterPrefix || HasStack).  A chart is
+   shown as present in the configuration iff some configured counter of the
+   program belongs to it or a configured stack has its name; no chart drawing
+   an approved plain counter or an approved stack counter is ever called
    absent (for configurations whose bucket lists do not introduce the chart
-   separator); the configured STACKS are never consulted: a chart of an
-   approved stack counter is called "not present in the telemetry config"
-   (finding 20, witness below) - the only failure the chart oracle can report
-   on the model. *)
+   separator); the chart oracle reports nothing on the model.
+   (Before c8e437d the configured stacks were not consulted: the chart of an
+   approved stack counter was called "not present in the telemetry config" -
+   finding 20; the oracle class viewer-chart-stack still detects that.) *)
 From Coq Require Import List ZArith NArith Bool Lia.
 From Tele Require Import Lib.Bytes Lib.Str Lib.Assoc Lib.Calendar Model.Config Model.ApprovalSpec Model.Report
   Model.Approval Proofs.ConfigFacts Proofs.AggregateFacts Proofs.ReportFacts Proofs.ApprovalFacts.
@@ -25,11 +27,10 @@ Proof.
     unfold counter_prefix_keys. apply in_flat_map. exists cc. split; [exact Hc|]. rewrite Hcut. left. subst. reflexivity.
 Qed.
 
-(* "present in the config" as the viewer computes it = some configured counter belongs to the chart *)
-Theorem viewer_chart_active_listed u prog name :
-  viewer_chart_active (new_config u) prog name = counter_chart_listedb u prog name.
+Lemma counter_part_listed u prog name :
+  has_counter (new_config u) prog name || has_counter_prefix (new_config u) prog name = counter_chart_listedb u prog name.
 Proof.
-  unfold viewer_chart_active, counter_chart_listedb. rewrite has_counter_approvedb. f_equal.
+  unfold counter_chart_listedb. rewrite has_counter_approvedb. f_equal.
   match goal with |- ?a = ?b => destruct b eqn:E end.
   - apply existsb_exists in E as [p [Hp Hb]]. apply andb_true_iff in Hb as [Hn Hc].
     apply beq_eq in Hn. apply existsb_exists in Hc as [cc [Hcc Hcut]].
@@ -44,6 +45,23 @@ Proof.
     { apply existsb_exists. exists p. split; [exact Hp|]. rewrite (proj2 (beq_eq _ _) Hn). cbn [andb].
       apply existsb_exists. exists cc. split; [exact Hc|]. rewrite Hcut, beq_refl. reflexivity. }
     congruence.
+Qed.
+
+Lemma has_stack_name_listed u prog name : has_stack (new_config u) prog name = nonempty (stack_rates u prog name).
+Proof.
+  destruct (nonempty (stack_rates u prog name)) eqn:E.
+  - apply nonempty_In in E as [r Hr]. apply in_stack_rates in Hr. apply has_stack_spec. eauto.
+  - destruct (has_stack (new_config u) prog name) eqn:E2; [|reflexivity].
+    apply has_stack_spec in E2 as [r Hr]. apply in_stack_rates in Hr.
+    destruct (stack_rates u prog name); [destruct Hr | discriminate].
+Qed.
+
+(* "present in the config" as the viewer computes it = some configured counter
+   belongs to the chart or a configured stack has its name *)
+Theorem viewer_chart_active_listed u prog name :
+  viewer_chart_active (new_config u) prog name = chart_listedb u prog name.
+Proof.
+  unfold viewer_chart_active, chart_listedb. rewrite counter_part_listed, has_stack_name_listed. reflexivity.
 Qed.
 
 (* bucket lists do not introduce the chart separator: an expansion with a
@@ -61,6 +79,7 @@ Theorem approved_counter_chart_active u prog k :
   viewer_chart_active (new_config u) prog (chart_name k) = true.
 Proof.
   intros Hok Hs Ha. unfold chart_name. rewrite Hs. unfold viewer_chart_active.
+  apply orb_true_iff. left.
   destruct (has_byte k ch_colon) eqn:Hc.
   - apply orb_true_iff. right. apply approved_counterb_spec in Ha as [r [p [cc [Hp [Hn [Hcc [He _]]]]]]].
     apply has_byte_In in Hc. destruct (Hok p cc k Hp Hcc He Hc) as [rest Hcut].
@@ -77,34 +96,28 @@ Proof.
   apply filter_In in H as [_ H]. apply beq_eq in H. exact H.
 Qed.
 
-(* the chart oracle on the model: only the stack class *)
-Theorem viewer_chart_check_model u files prog name : chart_prefix_ok u ->
-  forall cl, In cl (viewer_chart_check u files prog name (viewer_chart_active (new_config u) prog name)) ->
-  cl = AViewerChartStack /\ viewer_chart_active (new_config u) prog name = false /\
-  exists k, In k (chart_items files prog name) /\ is_stack k = true /\ approved_stackb u prog k = true.
+(* a chart drawing an approved stack counter is shown as present (formerly finding 20) *)
+Theorem approved_stack_chart_active u prog k :
+  is_stack k = true -> approved_stackb u prog k = true ->
+  viewer_chart_active (new_config u) prog (chart_name k) = true.
 Proof.
-  intros Hok cl. unfold viewer_chart_check. cbv zeta.
+  intros Hs Ha. unfold chart_name. rewrite Hs. unfold viewer_chart_active.
+  rewrite (has_stack_approvedb u prog k), Ha. apply orb_true_r.
+Qed.
+
+(* the chart oracle on the model: nothing *)
+Theorem viewer_chart_check_model u files prog name : chart_prefix_ok u ->
+  viewer_chart_check u files prog name (viewer_chart_active (new_config u) prog name) = [].
+Proof.
+  intros Hok. unfold viewer_chart_check. cbv zeta.
   destruct (viewer_chart_active (new_config u) prog name) eqn:Ea; cbn [negb andb].
-  - rewrite <- Ea, viewer_chart_active_listed. unfold chart_listedb.
-    rewrite viewer_chart_active_listed in Ea. rewrite Ea. cbn. intros [].
+  - rewrite <- (viewer_chart_active_listed u prog name), Ea. reflexivity.
   - destruct (existsb (fun k => negb (is_stack k) && approved_counterb u prog k) (chart_items files prog name)) eqn:Ep.
     + exfalso. apply existsb_exists in Ep as [k [Hk Hb]]. apply andb_true_iff in Hb as [Hs Hap].
       apply negb_true_iff in Hs. pose proof (approved_counter_chart_active u prog k Hok Hs Hap) as Ht.
       rewrite (in_chart_items _ _ _ _ Hk) in Ht. congruence.
-    + destruct (existsb (fun k => is_stack k && approved_stackb u prog k) (chart_items files prog name)) eqn:Es; [|intros []].
-      intros [<-|[]]. split; [reflexivity|]. split; [reflexivity|].
-      apply existsb_exists in Es as [k [Hk Hb]]. apply andb_true_iff in Hb as [H1 H2]. eauto.
-Qed.
-
-From Coq Require Import String.
-Local Open Scope string_scope.
-Local Open Scope list_scope.
-Local Open Scope N_scope.
-(* finding 20: the chart of an approved stack counter is called "not present in the telemetry config" *)
-Theorem viewer_chart_stack_refuted :
-  exists u prog k, is_stack k = true /\ approved_stackb u prog k = true /\
-                   viewer_chart_active (new_config u) prog (chart_name k) = false.
-Proof.
-  exists (w_cfg [mkCC (s2b "foo") bits_one] [mkCC (s2b "stk") bits_one]), (s2b "cmd/go"), (s2b "stk" ++ [10] ++ s2b "f").
-  split; [reflexivity|]. split; vm_compute; reflexivity.
+    + destruct (existsb (fun k => is_stack k && approved_stackb u prog k) (chart_items files prog name)) eqn:Es; [|reflexivity].
+      exfalso. apply existsb_exists in Es as [k [Hk Hb]]. apply andb_true_iff in Hb as [H1 H2].
+      pose proof (approved_stack_chart_active u prog k H1 H2) as Ht.
+      rewrite (in_chart_items _ _ _ _ Hk) in Ht. congruence.
 Qed.
